@@ -73,3 +73,16 @@ Theorem writers_cover_produced_partial :
   forallb covers (seq 0 n_writers) = true.
 Proof. vm_compute. reflexivity. Qed.
 Print Assumptions writers_cover_produced_partial.
+
+
+(* (c), partial, syntactic like (b): strip_line_tokens_from_block still dissolves every line kind that no writer can
+   print (a removed case label sends that kind to the default branch, which keeps the LINE_* token in the tree), every
+   kind a grammar action retypes a line to is among them, and every kind the line classifier assigns is either dissolved
+   or kept by design. *)
+From MMD.model Require Import StripPolicy.
+Theorem line_kinds_are_dissolved_partial :
+  subset_s must_be_dissolved strip_dissolved = true /\
+  subset_s grammar_retyped strip_dissolved = true /\
+  subset_s classifier_assigned (strip_dissolved ++ kept_by_design) = true.
+Proof. vm_compute. repeat split; reflexivity. Qed.
+Print Assumptions line_kinds_are_dissolved_partial.
